@@ -14,7 +14,9 @@ import (
 	"path/filepath"
 	"runtime/debug"
 	"runtime/metrics"
+	"sort"
 	"strings"
+	"sync"
 	"syscall"
 	"time"
 
@@ -44,25 +46,51 @@ type C09Mut struct {
 	// field: overwrite [Pos, Pos+len(Bytes)) with Bytes (hex), or replace a varint
 	Hex    string `json:"hex,omitempty"`
 	OldLen int    `json:"oldlen,omitempty"` // bytes replaced (varint replacement may change length)
+	// field: name and value of a single length varint that was replaced (drives the expected
+	// too-large error); Repair re-computes DataSize/IndexOffset of an enclosing CARv2 header
+	Field  string `json:"field,omitempty"`
+	FV     uint64 `json:"fv,omitempty"`
+	Repair bool   `json:"repair,omitempty"`
+	// hdr / sec: replace [Pos, Pos+OldLen) of the header body / of section 0's body with Hex and
+	// re-encode the enclosing length varint (and the CARv2 header)
+	Note string `json:"note,omitempty"`
+	// Claim: the length a planted CBOR string/bytes head claims (what the CBOR decoder pre-allocates)
+	Claim uint64 `json:"claim,omitempty"`
 }
 
 type C09Case struct {
-	Seed  string  `json:"seed"`
-	Class string  `json:"class"` // byte, pair, fields, limits
-	Limit string  `json:"limit"` // default, small
-	Zero  bool    `json:"zero,omitempty"`
-	From  int     `json:"from,omitempty"`  // skip the first From mutants (restart after a child death)
-	Mut   *C09Mut `json:"mut,omitempty"`   // replay: only this mutant
-	Entry string  `json:"entry,omitempty"` // replay: only this entry point
+	Seed  string `json:"seed"`
+	Class string `json:"class"` // byte, pair, fields, cbor, struct, limits
+	Limit string `json:"limit"` // default, small (header 4096 / section 2048), swap (2048 / 4096)
+	Zero  bool   `json:"zero,omitempty"`
+	Set   string `json:"set,omitempty"` // "" = core entry points, "ext" = extended (source kinds, files, resume, ...)
+	Opt   string `json:"opt,omitempty"` // option variant: "", sw, tm, so
+	// Shards > 0: only the mutants whose ordinal is Shard modulo Shards (splits a long enumeration over workers)
+	Shard  int     `json:"shard,omitempty"`
+	Shards int     `json:"shards,omitempty"`
+	From   int     `json:"from,omitempty"`  // skip the first From mutants (restart after a child death)
+	Mut    *C09Mut `json:"mut,omitempty"`   // replay: only this mutant
+	Entry  string  `json:"entry,omitempty"` // replay: only this entry point
 }
 
 type c09Seed struct {
 	name    string
 	bytes   []byte
 	isIdx   bool
+	iidx    bool // serialized InsertionIndex (only InsertionIndex.Unmarshal reads it)
 	region  func(pos int) string
 	struct_ []int // structural byte positions for 2-deviation pairs
 	fields  []c09Field
+	// layout (archives)
+	cont    string // v1, v2, v2pad, v2noidx
+	base    int    // offset of the CARv1 payload
+	hdrLen  int    // length of the CARv1 header incl. its length varint
+	hdrVar  int    // length of that varint
+	sec0    int    // file offset of section 0 (-1: none)
+	sec0Var int    // length of its length varint
+	sec0Len int    // its body length
+	large   bool   // too long for the every-position classes
+	pl      *refcar.Payload
 }
 
 type c09Field struct {
@@ -73,17 +101,28 @@ type c09Field struct {
 	values []uint64
 }
 
+var (
+	c09SeedOnce sync.Once
+	c09SeedList []c09Seed
+)
+
+// c09Seeds builds the seed list once per process.
 func c09Seeds() []c09Seed {
-	_, rootRaws, _ := kit.Roots("a")
+	c09SeedOnce.Do(func() { c09SeedList = c09BuildSeeds() })
+	return c09SeedList
+}
+
+func c09BuildSeeds() []c09Seed {
 	var out []c09Seed
-	mk := func(name string, seq []string, cont string) {
+	mkR := func(name string, seq []string, cont string, rootSet string, large bool) {
+		_, rootRaws, _ := kit.Roots(rootSet)
 		var rb []refcar.Block
 		for _, b := range kit.Bs(seq) {
 			rb = append(rb, b.Ref())
 		}
 		payload := refcar.EncodeV1(rootRaws, false, rb)
 		pl, _ := refcar.DecodePayload(payload, false, true)
-		s := c09Seed{name: name}
+		s := c09Seed{name: name, cont: cont, large: large, sec0: -1}
 		base := 0
 		switch cont {
 		case "v1":
@@ -112,12 +151,33 @@ func c09Seeds() []c09Seed {
 			s.fields = append(s.fields, c09Field{name: "v2.DataOffset", pos: 27, width: 8, values: bv}, c09Field{name: "v2.DataSize", pos: 35, width: 8, values: bv}, c09Field{name: "v2.IndexOffset", pos: 43, width: 8, values: bv})
 		}
 		add(base, base+4)
-		lens := []uint64{0, 1, 2, 127, 128, 1023, 1024, 1025, 4095, 4096, 4097, 8 << 20, 8<<20 + 1, 32 << 20, 32<<20 + 1, 1 << 31, 1 << 32, 1<<63 - 1, 1 << 63, 1<<64 - 1}
-		s.fields = append(s.fields, c09Field{name: "v1.HeaderLen", pos: base, varlen: refcar.UvarintSize(pl.HeaderLen - 1), values: lens})
+		lens := []uint64{0, 1, 2, 127, 128, 1023, 1024, 1025, 2047, 2048, 2049, 4095, 4096, 4097, 16383, 16384, 8 << 20, 8<<20 + 1, 32 << 20, 32<<20 + 1, 1 << 31, 1 << 32, 1<<63 - 1, 1 << 63, 1<<64 - 1}
+		s.base = base
+		s.hdrLen = int(pl.HeaderLen)
+		s.hdrVar = c09VarintLenOfTotal(pl.HeaderLen)
+		s.pl = pl
+		s.fields = append(s.fields, c09Field{name: "v1.HeaderLen", pos: base, varlen: s.hdrVar, values: lens})
 		if len(pl.Sections) > 0 {
 			so := base + int(pl.Sections[0].Offset)
 			add(so, so+6)
-			s.fields = append(s.fields, c09Field{name: "section0.Len", pos: so, varlen: refcar.UvarintSize(pl.Sections[0].Len - 1), values: lens})
+			s.sec0 = so
+			s.sec0Var = c09VarintLenOfTotal(pl.Sections[0].Len)
+			s.sec0Len = int(pl.Sections[0].Len) - s.sec0Var
+			s.fields = append(s.fields, c09Field{name: "section0.Len", pos: so, varlen: s.sec0Var, values: lens})
+			if large {
+				// the last section too (its end is the end of the payload)
+				last := pl.Sections[len(pl.Sections)-1]
+				lo := base + int(last.Offset)
+				add(lo, lo+6)
+				add(base+len(payload)-3, base+len(payload))
+			}
+		}
+		if large {
+			// end of the header, and every 509th position (a prime stride) as a sample of the bulk
+			add(base+s.hdrLen-4, base+s.hdrLen)
+			for p := base; p < len(s.bytes); p += 509 {
+				add(p, p+1)
+			}
 		}
 		if cont == "v2" || cont == "v2pad" {
 			h := refcar.ParseV2Header(s.bytes[11:51])
@@ -184,8 +244,10 @@ func c09Seeds() []c09Seed {
 			}
 		}
 		s.fields = fs
+		s.struct_ = c09SortedUnique(s.struct_)
 		out = append(out, s)
 	}
+	mk := func(name string, seq []string, cont string) { mkR(name, seq, cont, "a", false) }
 	mk("v1-empty", nil, "v1")
 	mk("v1-a", []string{"a"}, "v1")
 	mk("v1-ai", []string{"a", "i"}, "v1")
@@ -194,11 +256,28 @@ func c09Seeds() []c09Seed {
 	mk("v2pad-ab", []string{"a", "b"}, "v2pad")
 	mk("v2noidx-a", []string{"a"}, "v2noidx")
 	mk("v2-empty", nil, "v2")
-	// detached indexes
+	// sizes: a section whose length varint is 2 bytes wide; a section over the small limits (3-byte
+	// varint, crosses the 4 KiB bufio size of the root module); a CARv2 with a 5000-byte section; a
+	// header of 100 roots (> 4 KiB)
+	mk("v1-L128", []string{"a", "L128"}, "v1")
+	mkR("v1-L16384", []string{"a", "L16384"}, "v1", "a", true)
+	mkR("v2-L5000", []string{"a", "L5000"}, "v2", "a", true)
+	mkR("v1-r100", []string{"a"}, "v1", "r100", true)
+	// detached indexes: synthetic records, and the real index of the archive c09IdxArchive()
 	recs := []refcar.IndexRecord{{MhCode: refcar.MhSha256, Digest: bytes.Repeat([]byte{7}, 32), Offset: 59}, {MhCode: refcar.MhSha512, Digest: bytes.Repeat([]byte{9}, 64), Offset: 100}}
-	for _, codec := range []uint64{refcar.CodecIndexSorted, refcar.CodecMhIndexSorted} {
-		b := refcar.EncodeIndex(codec, recs)
-		s := c09Seed{name: fmt.Sprintf("index-%x", codec), bytes: b, isIdx: true, region: func(int) string { return "index" }}
+	realPl, _ := refcar.DecodePayload(c09IdxArchive(), false, true)
+	type idxSeed struct {
+		name  string
+		codec uint64
+		recs  []refcar.IndexRecord
+	}
+	for _, is := range []idxSeed{
+		{"index-400", refcar.CodecIndexSorted, recs}, {"index-401", refcar.CodecMhIndexSorted, recs},
+		{"index-real-400", refcar.CodecIndexSorted, refcar.RecordsOf(realPl, false)}, {"index-real-401", refcar.CodecMhIndexSorted, refcar.RecordsOf(realPl, false)},
+	} {
+		codec := is.codec
+		b := refcar.EncodeIndex(codec, is.recs)
+		s := c09Seed{name: is.name, bytes: b, isIdx: true, sec0: -1, region: func(int) string { return "index" }}
 		for p := 0; p < 40 && p < len(b); p++ {
 			s.struct_ = append(s.struct_, p)
 		}
@@ -212,14 +291,62 @@ func c09Seeds() []c09Seed {
 		}
 		out = append(out, s)
 	}
+	// the serialized form of an InsertionIndex (written by go-car itself: refcar has no encoder for
+	// this private format), and a hand-written record list that uses a CBOR tag-42 link
+	{
+		ii := index.NewInsertionIndex()
+		ii.InsertNoReplace(kit.B("a").Cid, 59)
+		ii.InsertNoReplace(kit.B("s").Cid, 99)
+		var buf bytes.Buffer
+		ii.Marshal(&buf)
+		mkI := func(name string, b []byte) {
+			s := c09Seed{name: name, bytes: b, isIdx: true, iidx: true, sec0: -1, region: func(int) string { return "index" }}
+			for p := 0; p < 40 && p < len(b); p++ {
+				s.struct_ = append(s.struct_, p)
+			}
+			s.fields = []c09Field{{name: "idx.count", pos: 0, width: 8, values: []uint64{0, 1, 2, 3, 1 << 20, 1 << 31, 1 << 32, 1<<63 - 1, 1 << 63, 1<<64 - 1}}}
+			out = append(out, s)
+		}
+		mkI("index-insertion", buf.Bytes())
+		hand := []byte{1, 0, 0, 0, 0, 0, 0, 0, 0xa2, 0x63, 'C', 'i', 'd', 0xd8, 0x2a, 0x58, 0x25, 0x00}
+		hand = append(hand, kit.B("a").Raw...)
+		hand = append(hand, 0x66, 'O', 'f', 'f', 's', 'e', 't', 0x18, 59)
+		mkI("index-insertion-link", hand)
+	}
+	return out
+}
+
+// c09IdxArchive is the valid CARv1 the "real" detached index seeds belong to.
+func c09IdxArchive() []byte {
+	_, rootRaws, _ := kit.Roots("a")
+	return refcar.EncodeV1(rootRaws, false, []refcar.Block{kit.B("a").Ref(), kit.B("s").Ref(), kit.B("i").Ref()})
+}
+
+func c09VarintLenOfTotal(total uint64) int {
+	for n := 1; n <= 10; n++ {
+		if uint64(n) < total && refcar.UvarintSize(total-uint64(n)) == n {
+			return n
+		}
+	}
+	panic("c09: no varint length")
+}
+
+func c09SortedUnique(a []int) []int {
+	sort.Ints(a)
+	out := a[:0]
+	for i, v := range a {
+		if i == 0 || v != a[i-1] {
+			out = append(out, v)
+		}
+	}
 	return out
 }
 
 func c09FindSeed(name string) *c09Seed {
-	for _, s := range c09Seeds() {
-		if s.name == name {
-			s := s
-			return &s
+	l := c09Seeds()
+	for i := range l {
+		if l[i].name == name {
+			return &l[i]
 		}
 	}
 	return nil
@@ -238,7 +365,8 @@ func c09SetByte(b []byte, pos, val int) {
 	}
 }
 
-func c09Apply(seed []byte, m C09Mut) []byte {
+func c09Apply(sd *c09Seed, m C09Mut) []byte {
+	seed := sd.bytes
 	switch m.Kind {
 	case "none":
 		return seed
@@ -258,9 +386,45 @@ func c09Apply(seed []byte, m C09Mut) []byte {
 		fmt.Sscanf(m.Hex, "%x", &hb)
 		out := append([]byte{}, seed[:m.Pos]...)
 		out = append(out, hb...)
-		return append(out, seed[m.Pos+m.OldLen:]...)
+		out = append(out, seed[m.Pos+m.OldLen:]...)
+		if m.Repair {
+			c09RepairV2(sd, out, len(hb)-m.OldLen)
+		}
+		return out
+	case "hdr", "sec":
+		// replace a piece of the header body / of section 0's body and re-encode its length prefix
+		var hb []byte
+		if m.Hex != "" {
+			fmt.Sscanf(m.Hex, "%x", &hb)
+		}
+		start, vlen, blen := sd.base, sd.hdrVar, sd.hdrLen-sd.hdrVar
+		if m.Kind == "sec" {
+			start, vlen, blen = sd.sec0, sd.sec0Var, sd.sec0Len
+		}
+		body := seed[start+vlen : start+vlen+blen]
+		nb := append([]byte{}, body[:m.Pos]...)
+		nb = append(nb, hb...)
+		nb = append(nb, body[m.Pos+m.OldLen:]...)
+		out := append([]byte{}, seed[:start]...)
+		out = append(out, refcar.PutUvarint(uint64(len(nb)))...)
+		out = append(out, nb...)
+		out = append(out, seed[start+vlen+blen:]...)
+		c09RepairV2(sd, out, len(out)-len(seed))
+		return out
 	}
 	panic(m.Kind)
+}
+
+// c09RepairV2 adjusts DataSize and IndexOffset of the CARv2 header of out after the payload grew by delta.
+func c09RepairV2(sd *c09Seed, out []byte, delta int) {
+	if sd.base == 0 || delta == 0 || len(out) < 51 {
+		return
+	}
+	ds := binary.LittleEndian.Uint64(out[35:43])
+	binary.LittleEndian.PutUint64(out[35:43], uint64(int64(ds)+int64(delta)))
+	if io_ := binary.LittleEndian.Uint64(out[43:51]); io_ != 0 {
+		binary.LittleEndian.PutUint64(out[43:51], uint64(int64(io_)+int64(delta)))
+	}
 }
 
 // c09Mutants enumerates the mutants of a class for a seed.
@@ -277,6 +441,24 @@ func c09Mutants(s *c09Seed, class string, emit func(C09Mut)) {
 			}
 			emit(C09Mut{Kind: "trunc", Pos: p})
 		}
+	case "struct":
+		// large seeds: the byte alphabet and the truncations at the structural positions only
+		emit(C09Mut{Kind: "none"})
+		for _, p := range s.struct_ {
+			for _, v := range c09Vals {
+				if v >= 0 && int(s.bytes[p]) == v {
+					continue
+				}
+				emit(C09Mut{Kind: "set", Pos: p, Val: v})
+			}
+			emit(C09Mut{Kind: "trunc", Pos: p})
+		}
+	case "cbor":
+		emit(C09Mut{Kind: "none"})
+		c09CborMutants(s, false, emit)
+	case "cbordeep":
+		emit(C09Mut{Kind: "none"})
+		c09CborMutants(s, true, emit)
 	case "pair":
 		for i, p := range s.struct_ {
 			for _, q := range s.struct_[i+1:] {
@@ -287,19 +469,36 @@ func c09Mutants(s *c09Seed, class string, emit func(C09Mut)) {
 				}
 			}
 		}
-	case "fields":
+	case "fields", "lens":
 		// product of boundary values over the fixed-width fields of one group, and each varint alone
+		// ("lens": the length varints only)
 		var fixed []c09Field
 		for _, f := range s.fields {
 			if f.width == 0 {
 				for _, v := range f.values {
-					emit(C09Mut{Kind: "field", Pos: f.pos, OldLen: f.varlen, Hex: fmt.Sprintf("%x", refcar.PutUvarint(v))})
-					// and a non-minimal / over-long encoding of the same value
-					emit(C09Mut{Kind: "field", Pos: f.pos, OldLen: f.varlen, Hex: fmt.Sprintf("%x", append(bytes.Repeat([]byte{0x80}, 9), 0x01))})
+					emit(C09Mut{Kind: "field", Pos: f.pos, OldLen: f.varlen, Hex: fmt.Sprintf("%x", refcar.PutUvarint(v)), Field: f.name, FV: v})
+					if s.base > 0 {
+						// the same with DataSize/IndexOffset of the CARv2 header following the new width
+						emit(C09Mut{Kind: "field", Pos: f.pos, OldLen: f.varlen, Hex: fmt.Sprintf("%x", refcar.PutUvarint(v)), Field: f.name, FV: v, Repair: true})
+					}
+					// a non-minimal encoding of the same value (one redundant continuation byte)
+					if v <= 4097 || v == 1<<32 {
+						nm := refcar.PutUvarint(v)
+						nm[len(nm)-1] |= 0x80
+						nm = append(nm, 0x00)
+						emit(C09Mut{Kind: "field", Pos: f.pos, OldLen: f.varlen, Hex: fmt.Sprintf("%x", nm), Note: "non-minimal"})
+					}
 				}
+				// over-long encodings: 10 and 11 bytes
+				emit(C09Mut{Kind: "field", Pos: f.pos, OldLen: f.varlen, Hex: fmt.Sprintf("%x", append(bytes.Repeat([]byte{0x80}, 9), 0x01)), Note: "2^63"})
+				emit(C09Mut{Kind: "field", Pos: f.pos, OldLen: f.varlen, Hex: fmt.Sprintf("%x", append(bytes.Repeat([]byte{0xff}, 10), 0x01)), Note: "11 bytes"})
+				emit(C09Mut{Kind: "field", Pos: f.pos, OldLen: f.varlen, Hex: fmt.Sprintf("%x", bytes.Repeat([]byte{0x80}, 12)), Note: "unterminated"})
 				continue
 			}
 			fixed = append(fixed, f)
+		}
+		if class == "lens" {
+			return
 		}
 		groups := map[string][]c09Field{}
 		var order []string
@@ -353,8 +552,56 @@ func c09Mutants(s *c09Seed, class string, emit func(C09Mut)) {
 // ---------------------------------------------------------------- entry points
 
 type c09Env struct {
-	dir   string
-	steps int64
+	dir    string
+	steps  int64
+	sample []metrics.Sample
+	// per-operation accounting: an entry point that makes several API calls on one object runs
+	// each through op(), so that allocation is bounded per call and errors are kept per call
+	errs      map[string]error
+	opSum     uint64
+	opMax     uint64
+	opMaxName string
+	iters     int64 // callback / loop iterations of source-less entry points (CPU-only loops)
+	// hook, when set, is called with a store right after it was opened (limits class)
+	hook   func(ra drv.RA)
+	hooked bool
+}
+
+func (env *c09Env) op(name string, f func() error) error {
+	var before uint64
+	if env.sample != nil {
+		before = allocBytes(env.sample)
+	}
+	err := f()
+	if env.sample != nil {
+		d := allocBytes(env.sample) - before
+		env.opSum += d
+		if d > env.opMax {
+			env.opMax, env.opMaxName = d, name
+		}
+	}
+	if env.errs == nil {
+		env.errs = map[string]error{}
+	}
+	env.errs[name] = err
+	return err
+}
+
+// opQuiet is op without keeping the error (for loops of many small calls).
+func (env *c09Env) opQuiet(name string, f func() error) error {
+	before := uint64(0)
+	if env.sample != nil {
+		before = allocBytes(env.sample)
+	}
+	err := f()
+	if env.sample != nil {
+		d := allocBytes(env.sample) - before
+		env.opSum += d
+		if d > env.opMax {
+			env.opMax, env.opMaxName = d, name
+		}
+	}
+	return err
 }
 
 type stepReader struct {
@@ -380,37 +627,139 @@ type c09Entry struct {
 	name  string
 	index bool   // takes a serialized index rather than an archive
 	v1    bool   // reads CARv1 only: run on CARv1 seeds
-	buf   string // "header", "section", "both" or "" — which limits it buffers against
-	run   func(in []byte, o drv.Opts, env *c09Env) error
+	v2    bool   // CARv2 only
+	buf   string // "header", "both", "root" (the root module's global), "default" (takes no options) or "" (buffers nothing)
+	// inner: on a CARv2 it buffers the header of the inner CARv1 (else only the pragma)
+	inner bool
+	// where an over-limit header / section 0 must be reported with the too-large error:
+	// "ret" = the returned (first) error; "store" = the error of opening, or else of Keys and Roots;
+	// "get" = the error of Get(a) if it was attempted; "" = no requirement
+	hdr, sect string
+	// okErr: an error this entry point returns on a valid archive by design
+	okErr  func(err error, seed *c09Seed) bool
+	resume bool // opens an existing file for writing (resume path)
+	run    func(in []byte, o drv.Opts, env *c09Env) error
 }
 
 var c09Queries = []string{"a", "b", "i", "s"}
 
-func c09DrainBR(br *carv2.BlockReader, mode int) error {
-	for i := 0; ; i++ {
+var errC09NoTerm = errors.New("c09: iteration does not terminate")
+
+// c09DrainBR iterates to the end; after the first error it keeps calling a few more times (an
+// object must stay total after it has failed). Returns the first error.
+func c09DrainBR(br *carv2.BlockReader, mode int, env *c09Env) error {
+	step := func(i int) error {
 		var err error
-		skip := mode == 1 || (mode == 2 && i%2 == 1)
-		if skip {
+		if mode == 1 || (mode == 2 && i%2 == 1) {
 			_, err = br.SkipNext()
 		} else {
 			_, err = br.Next()
 		}
+		return err
+	}
+	var first error
+	for i := 0; ; i++ {
+		err := step(i)
 		if err != nil {
-			if err == io.EOF {
-				return nil
+			if err != io.EOF {
+				first = err
 			}
-			return err
+			for k := 0; k < 3; k++ {
+				k := k
+				env.op(fmt.Sprintf("after-error-%d", k), func() error { return step(i + 1 + k) })
+			}
+			return first
 		}
 		if i > 1<<20 {
-			return errors.New("c09: iteration does not terminate")
+			return errC09NoTerm
 		}
 	}
+}
+
+func c09WriteTmp(env *c09Env, in []byte) string {
+	p := filepath.Join(env.dir, "c09-in.car")
+	if err := os.WriteFile(p, in, 0o644); err != nil {
+		panic(err)
+	}
+	return p
+}
+
+// c09QueryRA runs every query of a read-only store, each as its own operation; returns the first error.
+func c09QueryRA(env *c09Env, ra drv.RA) error {
+	if env.hook != nil {
+		env.hooked = true
+		env.hook(ra)
+	}
+	var first error
+	note := func(err error, nf bool) {
+		if err != nil && first == nil && !(nf && isNotFound(err)) {
+			first = err
+		}
+	}
+	for _, q := range c09Queries {
+		b := kit.B(q)
+		note(env.op("Has:"+q, func() error { _, err := ra.Has(b.Cid); return err }), false)
+		note(env.op("Get:"+q, func() error { _, err := ra.Get(b.Cid); return err }), true)
+		note(env.op("Size:"+q, func() error { _, err := ra.Size(b.Cid); return err }), true)
+	}
+	if err := env.op("Keys", func() error { _, err := ra.Keys(); return err }); err != drv.ErrNoListing {
+		note(err, false)
+	}
+	note(env.op("Roots", func() error { _, err := ra.Roots(); return err }), false)
+	// closing must not block (a read lock leaked on an error path would), and a closed store stays total
+	env.op("Close", func() error { ra.Close(); return nil })
+	env.op("Has-after-close", func() error { _, err := ra.Has(kit.B("a").Cid); return err })
+	return first
+}
+
+// c09ReaderAll exercises a carv2.Reader; it goes on after a failure. Returns the first error.
+func c09ReaderAll(rd *carv2.Reader, n int, env *c09Env) error {
+	var first error
+	note := func(err error) {
+		if err != nil && first == nil {
+			first = err
+		}
+	}
+	note(env.op("Roots", func() error { _, err := rd.Roots(); return err }))
+	note(env.op("DataReader", func() error {
+		dr, err := rd.DataReader()
+		if err != nil {
+			return err
+		}
+		if _, err := io.CopyN(io.Discard, dr, int64(n)+1); err != nil && err != io.EOF {
+			return err
+		}
+		return nil
+	}))
+	note(env.op("IndexReader", func() error {
+		ir, err := rd.IndexReader()
+		if err != nil {
+			return err
+		}
+		if ir != nil {
+			if _, err := io.CopyN(io.Discard, ir, int64(n)+1); err != nil && err != io.EOF {
+				return err
+			}
+		}
+		return nil
+	}))
+	if first != nil {
+		// a failed reader is inspected all the same
+		env.op("Inspect-after-error", func() error { _, err := rd.Inspect(false); return err })
+		env.op("Roots-again", func() error { _, err := rd.Roots(); return err })
+	}
+	env.op("Close", func() error { return rd.Close() })
+	return first
+}
+
+func c09IsAlreadyV1(err error, sd *c09Seed) bool {
+	return sd.base == 0 && errors.Is(err, carv2.ErrAlreadyV1)
 }
 
 func c09Entries() []c09Entry {
 	ctx := context.Background()
 	mkBR := func(name string, stream bool, mode int) c09Entry {
-		return c09Entry{name: name, buf: "both", run: func(in []byte, o drv.Opts, env *c09Env) error {
+		return c09Entry{name: name, buf: "both", inner: true, hdr: "ret", sect: "ret", run: func(in []byte, o drv.Opts, env *c09Env) error {
 			var src io.Reader = &stepReader{bytes.NewReader(in), env}
 			if stream {
 				src = &stepStream{bytes.NewReader(in), env}
@@ -419,66 +768,18 @@ func c09Entries() []c09Entry {
 			if err != nil {
 				return err
 			}
-			return c09DrainBR(br, mode)
+			return c09DrainBR(br, mode, env)
 		}}
 	}
-	queryRA := func(ra drv.RA) error {
-		var first error
-		for _, q := range c09Queries {
-			b := kit.B(q)
-			if _, err := ra.Has(b.Cid); err != nil && first == nil {
-				first = err
-			}
-			if _, err := ra.Get(b.Cid); err != nil && first == nil && !isNotFound(err) {
-				first = err
-			}
-			if _, err := ra.Size(b.Cid); err != nil && first == nil && !isNotFound(err) {
-				first = err
-			}
-		}
-		if _, err := ra.Keys(); err != nil && err != drv.ErrNoListing && first == nil {
-			first = err
-		}
-		if _, err := ra.Roots(); err != nil && first == nil {
-			first = err
-		}
-		return first
-	}
-	writeTmp := func(env *c09Env, in []byte) string {
-		p := filepath.Join(env.dir, "c09-in.car")
-		if err := os.WriteFile(p, in, 0o644); err != nil {
-			panic(err)
-		}
-		return p
-	}
 	return []c09Entry{
-		{name: "Reader", buf: "header", run: func(in []byte, o drv.Opts, env *c09Env) error {
+		{name: "Reader", buf: "header", inner: true, hdr: "ret", run: func(in []byte, o drv.Opts, env *c09Env) error {
 			rd, err := carv2.NewReader(&stepReader{bytes.NewReader(in), env}, o.List()...)
 			if err != nil {
 				return err
 			}
-			if _, err := rd.Roots(); err != nil {
-				return err
-			}
-			dr, err := rd.DataReader()
-			if err != nil {
-				return err
-			}
-			if _, err := io.CopyN(io.Discard, dr, int64(len(in))+1); err != nil && err != io.EOF {
-				return err
-			}
-			ir, err := rd.IndexReader()
-			if err != nil {
-				return err
-			}
-			if ir != nil {
-				if _, err := io.CopyN(io.Discard, ir, int64(len(in))+1); err != nil && err != io.EOF {
-					return err
-				}
-			}
-			return nil
+			return c09ReaderAll(rd, len(in), env)
 		}},
-		{name: "Inspect(true)", buf: "both", run: func(in []byte, o drv.Opts, env *c09Env) error {
+		{name: "Inspect(true)", buf: "both", inner: true, hdr: "ret", sect: "ret", run: func(in []byte, o drv.Opts, env *c09Env) error {
 			rd, err := carv2.NewReader(&stepReader{bytes.NewReader(in), env}, o.List()...)
 			if err != nil {
 				return err
@@ -486,7 +787,7 @@ func c09Entries() []c09Entry {
 			_, err = rd.Inspect(true)
 			return err
 		}},
-		{name: "Inspect(false)", buf: "both", run: func(in []byte, o drv.Opts, env *c09Env) error {
+		{name: "Inspect(false)", buf: "both", inner: true, hdr: "ret", sect: "ret", run: func(in []byte, o drv.Opts, env *c09Env) error {
 			rd, err := carv2.NewReader(&stepReader{bytes.NewReader(in), env}, o.List()...)
 			if err != nil {
 				return err
@@ -497,18 +798,18 @@ func c09Entries() []c09Entry {
 		mkBR("BlockReader.Next", false, 0), mkBR("BlockReader.Next/stream", true, 0),
 		mkBR("BlockReader.SkipNext", false, 1), mkBR("BlockReader.SkipNext/stream", true, 1),
 		mkBR("BlockReader.alternate", false, 2), mkBR("BlockReader.alternate/stream", true, 2),
-		{name: "GenerateIndex", buf: "header", run: func(in []byte, o drv.Opts, env *c09Env) error {
+		{name: "GenerateIndex", buf: "header", inner: true, hdr: "ret", run: func(in []byte, o drv.Opts, env *c09Env) error {
 			_, err := carv2.GenerateIndex(&stepReader{bytes.NewReader(in), env}, o.List()...)
 			return err
 		}},
-		{name: "GenerateIndex/stream", buf: "header", run: func(in []byte, o drv.Opts, env *c09Env) error {
+		{name: "GenerateIndex/stream", buf: "header", inner: true, hdr: "ret", run: func(in []byte, o drv.Opts, env *c09Env) error {
 			_, err := carv2.GenerateIndex(&stepStream{bytes.NewReader(in), env}, o.List()...)
 			return err
 		}},
-		{name: "LoadIndex(insertion)", buf: "header", run: func(in []byte, o drv.Opts, env *c09Env) error {
+		{name: "LoadIndex(insertion)", buf: "header", inner: true, hdr: "ret", run: func(in []byte, o drv.Opts, env *c09Env) error {
 			return carv2.LoadIndex(index.NewInsertionIndex(), &stepReader{bytes.NewReader(in), env}, o.List()...)
 		}},
-		{name: "ReadOrGenerateIndex", buf: "header", run: func(in []byte, o drv.Opts, env *c09Env) error {
+		{name: "ReadOrGenerateIndex", buf: "header", hdr: "ret", run: func(in []byte, o drv.Opts, env *c09Env) error {
 			_, err := carv2.ReadOrGenerateIndex(&stepReader{bytes.NewReader(in), env}, o.List()...)
 			return err
 		}},
@@ -517,70 +818,84 @@ func c09Entries() []c09Entry {
 			if err != nil {
 				return err
 			}
-			for _, q := range c09Queries {
-				idx.GetAll(kit.B(q).Cid, func(uint64) bool { return true })
-			}
-			return nil
+			return c09IndexQueries(idx, env)
 		}},
-		{name: "NewReadOnly", buf: "header", run: func(in []byte, o drv.Opts, env *c09Env) error {
-			bs, err := blockstore.NewReadOnly(&stepReader{bytes.NewReader(in), env}, nil, o.List()...)
-			if err != nil {
+		{name: "NewReadOnly", buf: "header", inner: true, hdr: "store", sect: "get", run: func(in []byte, o drv.Opts, env *c09Env) error {
+			var bs *blockstore.ReadOnly
+			if err := env.op("open", func() (err error) {
+				bs, err = blockstore.NewReadOnly(&stepReader{bytes.NewReader(in), env}, nil, o.List()...)
+				return err
+			}); err != nil {
 				return err
 			}
-			return queryRA(drv.WrapBS(bs))
+			return c09QueryRA(env, drv.WrapBS(bs))
 		}},
-		{name: "OpenReadable", buf: "header", run: func(in []byte, o drv.Opts, env *c09Env) error {
-			st, err := storage.OpenReadable(&stepReader{bytes.NewReader(in), env}, o.List()...)
-			if err != nil {
+		{name: "OpenReadable", buf: "header", inner: true, hdr: "ret", run: func(in []byte, o drv.Opts, env *c09Env) error {
+			var st storage.ReadableCar
+			if err := env.op("open", func() (err error) {
+				st, err = storage.OpenReadable(&stepReader{bytes.NewReader(in), env}, o.List()...)
+				return err
+			}); err != nil {
 				return err
 			}
-			return queryRA(drv.WrapST(st))
+			return c09QueryRA(env, drv.WrapST(st))
 		}},
-		{name: "ReplaceRootsInFile", buf: "header", run: func(in []byte, o drv.Opts, env *c09Env) error {
-			p := writeTmp(env, in)
+		{name: "ReplaceRootsInFile", buf: "header", inner: true, hdr: "ret", okErr: func(err error, sd *c09Seed) bool {
+			return sd.name == "v1-r100" && strings.Contains(err.Error(), "must match replacement header size") // 100 roots replaced by one
+		}, run: func(in []byte, o drv.Opts, env *c09Env) error {
+			p := c09WriteTmp(env, in)
 			defer os.Remove(p)
 			return carv2.ReplaceRootsInFile(p, []cid.Cid{kit.B("b").Cid}, o.List()...)
 		}},
-		{name: "ExtractV1File", buf: "header", run: func(in []byte, o drv.Opts, env *c09Env) error {
-			p := writeTmp(env, in)
+		{name: "ExtractV1File", buf: "header", hdr: "ret", okErr: c09IsAlreadyV1, run: func(in []byte, o drv.Opts, env *c09Env) error {
+			p := c09WriteTmp(env, in)
 			defer os.Remove(p)
 			dst := filepath.Join(env.dir, "c09-out.car")
 			defer os.Remove(dst)
 			return carv2.ExtractV1File(p, dst, o.List()...)
 		}},
-		{name: "WrapV1", buf: "header", run: func(in []byte, o drv.Opts, env *c09Env) error {
+		{name: "WrapV1", buf: "header", hdr: "ret", run: func(in []byte, o drv.Opts, env *c09Env) error {
 			return carv2.WrapV1(&stepReader{bytes.NewReader(in), env}, io.Discard, o.List()...)
 		}},
-		{name: "ReadVersion", buf: "header", run: func(in []byte, o drv.Opts, env *c09Env) error {
+		{name: "ReadVersion", buf: "header", hdr: "ret", run: func(in []byte, o drv.Opts, env *c09Env) error {
 			_, err := carv2.ReadVersion(&stepStream{bytes.NewReader(in), env}, o.List()...)
 			return err
 		}},
-		{name: "root.CarReader", v1: true, buf: "root", run: func(in []byte, o drv.Opts, env *c09Env) error {
-			cr, err := carv1.NewCarReaderWithOptions(&stepStream{bytes.NewReader(in), env})
+		{name: "root.CarReader", v1: true, buf: "root", hdr: "ret", sect: "ret", run: func(in []byte, o drv.Opts, env *c09Env) error {
+			var cr *carv1.CarReader
+			var err error
+			if o.StoreID { // option variant: the only option of the root-module reader
+				cr, err = carv1.NewCarReaderWithOptions(&stepStream{bytes.NewReader(in), env}, carv1.WithErrorOnEmptyRoots(true))
+			} else {
+				cr, err = carv1.NewCarReaderWithOptions(&stepStream{bytes.NewReader(in), env})
+			}
 			if err != nil {
 				return err
 			}
 			for i := 0; ; i++ {
 				if _, err := cr.Next(); err != nil {
+					for k := 0; k < 2; k++ {
+						env.op(fmt.Sprintf("after-error-%d", k), func() error { _, err := cr.Next(); return err })
+					}
 					if err == io.EOF {
 						return nil
 					}
 					return err
 				}
 				if i > 1<<20 {
-					return errors.New("c09: iteration does not terminate")
+					return errC09NoTerm
 				}
 			}
 		}},
-		{name: "root.LoadCar", v1: true, buf: "root", run: func(in []byte, o drv.Opts, env *c09Env) error {
+		{name: "root.LoadCar", v1: true, buf: "root", hdr: "ret", sect: "ret", run: func(in []byte, o drv.Opts, env *c09Env) error {
 			_, err := carv1.LoadCar(ctx, &drvNullStore{}, &stepStream{bytes.NewReader(in), env})
 			return err
 		}},
-		{name: "root.ReadHeader", v1: true, buf: "root", run: func(in []byte, o drv.Opts, env *c09Env) error {
+		{name: "root.ReadHeader", v1: true, buf: "root", hdr: "ret", run: func(in []byte, o drv.Opts, env *c09Env) error {
 			_, err := carv1.ReadHeader(bufio.NewReader(&stepStream{bytes.NewReader(in), env}))
 			return err
 		}},
-		{name: "internal.CarReader", v1: true, buf: "both", run: func(in []byte, o drv.Opts, env *c09Env) error {
+		{name: "internal.CarReader", v1: true, buf: "both", hdr: "ret", sect: "ret", run: func(in []byte, o drv.Opts, env *c09Env) error {
 			mh, ms := o.MaxHeader, o.MaxSect
 			if mh == 0 {
 				mh = carv2.DefaultMaxAllowedHeaderSize
@@ -600,11 +915,19 @@ func c09Entries() []c09Entry {
 					return err
 				}
 				if i > 1<<20 {
-					return errors.New("c09: iteration does not terminate")
+					return errC09NoTerm
 				}
 			}
 		}},
 	}
+}
+
+// c09EntriesFor returns the entry points of a set ("" core, "ext" extended).
+func c09EntriesFor(set string) []c09Entry {
+	if set == "ext" {
+		return c09ExtEntries()
+	}
+	return c09Entries()
 }
 
 type drvNullStore struct{}
@@ -627,6 +950,7 @@ type c09Result struct {
 	Rejected   int       `json:"rejected"`
 	MaxAlloc   uint64    `json:"max_alloc"`
 	MaxSteps   int64     `json:"max_steps"`
+	Expect     int       `json:"expect"` // evaluations of the too-large / within-limit expectation
 	Violations []c09Viol `json:"violations"`
 }
 
@@ -635,12 +959,86 @@ func allocBytes(s []metrics.Sample) uint64 {
 	return s[0].Value.Uint64()
 }
 
+// c09Limits returns the configured header / section maxima of a limit setting.
+func c09Limits(limit string) (mh, ms uint64) {
+	switch limit {
+	case "small":
+		return 4096, 2048
+	case "swap":
+		return 2048, 4096
+	}
+	return 32 << 20, 8 << 20
+}
+
 func c09Opts(cs C09Case, seedLen int) drv.Opts {
 	o := drv.Opts{ZeroEOF: cs.Zero}
-	if cs.Limit == "small" {
-		o.MaxHeader, o.MaxSect = 4096, 4096
+	if cs.Limit == "small" || cs.Limit == "swap" {
+		o.MaxHeader, o.MaxSect = c09Limits(cs.Limit)
+	}
+	switch cs.Opt {
+	case "sw":
+		o.StoreID, o.Whole = true, true
+	case "tm":
+		o.Trusted, o.MaxCid = true, 36
+	case "so":
+		o.Codec = "sorted"
 	}
 	return o
+}
+
+const (
+	c09HdrTooLarge  = "invalid header data, length of read beyond allowable maximum"
+	c09SectTooLarge = "invalid section data, length of read beyond allowable maximum"
+	c09RootTooLarge = "malformed car; header is bigger than util.MaxAllowedSectionSize"
+)
+
+func errHas(err error, sub string) bool { return err != nil && strings.Contains(err.Error(), sub) }
+
+// c09Prop is the part of the allocation bound that is proportional to the input.
+func c09Prop(n int) uint64 {
+	if n <= 1024 {
+		return 1024 * uint64(n)
+	}
+	return 1024*1024 + 64*uint64(n-1024)
+}
+
+// c09MaxCidClaim scans every offset of in for a CID whose multihash length varint claims more than
+// the input holds, and returns the largest claim (capped at 32 MiB, go-cid's own cap): this is what
+// go-cid's CidFromReader pre-allocates (known finding c09:alloc:cid-digest-prealloc).
+func c09MaxCidClaim(in []byte) uint64 {
+	var max uint64
+	for p := 0; p < len(in); p++ {
+		q := p
+		ok := true
+		var v uint64
+		for k := 0; k < 4 && ok; k++ { // version, codec, multihash code, multihash length
+			x, n, err := refcar.Uvarint(in[q:])
+			if err != nil || n <= 0 {
+				// go-varint rejects non-minimal encodings that refcar may reject too; a lenient parse is the safe side
+				x, n = binary.Uvarint(in[q:])
+				if n <= 0 {
+					ok = false
+					break
+				}
+			}
+			q += n
+			v = x
+			if k == 0 && x == 0x12 && q < len(in) {
+				// CIDv0: 0x12 then the length byte
+				y, m := binary.Uvarint(in[q:])
+				if m > 0 && y > max {
+					max = y
+				}
+			}
+		}
+		if ok && v > max {
+			max = v
+		}
+	}
+	if max > 32<<20 {
+		max = 32 << 20
+	}
+	return max
 }
 
 // C09ChildMain runs every mutant of the case against every entry point, in this process.
@@ -666,43 +1064,86 @@ func C09ChildMain(arg, progressPath string) int {
 	defer os.RemoveAll(dir)
 	prog, _ := os.OpenFile(progressPath, os.O_CREATE|os.O_WRONLY|os.O_TRUNC, 0o644)
 	res := &c09Result{}
-	entries := c09Entries()
+	entries := c09EntriesFor(cs.Set)
 	o := c09Opts(cs, len(seed.bytes))
-	if cs.Limit == "small" {
-		v1util.MaxAllowedSectionSize = 4096
+	mh, ms := c09Limits(cs.Limit)
+	rootLim := uint64(32 << 20)
+	if cs.Limit != "default" {
+		// the root module has one global for header and section
+		rootLim = mh
+		v1util.MaxAllowedSectionSize = uint(mh)
 	}
 	sample := []metrics.Sample{{Name: "/gc/heap/allocs:bytes"}}
 	seen := map[string]bool{}
-	type job struct {
-		m C09Mut
-	}
 	ordinal := -1
 	isV2 := bytes.HasPrefix(seed.bytes, refcar.Pragma)
+	// under the default limits the classes that plant length fields near the limits are judged
+	// per operation only (several calls on one object may each buffer up to the limit)
+	totalCheck := !(cs.Limit == "default" && (cs.Class == "fields" || cs.Class == "lens" || cs.Class == "cbor" || cs.Class == "cbordeep" || cs.Class == "struct"))
 	runOne := func(m C09Mut) {
 		ordinal++
-		if ordinal < cs.From {
+		if ordinal < cs.From || (cs.Shards > 0 && cs.Mut == nil && ordinal%cs.Shards != cs.Shard) {
 			return
 		}
-		in := c09Apply(seed.bytes, m)
+		in := c09Apply(seed, m)
 		res.Mutants++
-		// allocation bound: configured maxima + proportional to the input + slack
-		mh, ms := uint64(32<<20), uint64(8<<20)
-		if cs.Limit == "small" {
-			mh, ms = 4096, 4096
+		// what a length field planted by this mutant demands
+		wantHdr, wantSect, hdrWithin := false, false, false
+		judged := !isV2 || m.Repair
+		if m.Kind == "field" && m.Field != "" && judged {
+			switch m.Field {
+			case "v1.HeaderLen":
+				wantHdr = m.FV > mh
+				hdrWithin = m.FV <= mh
+			case "section0.Len":
+				wantSect = m.FV > ms
+			}
 		}
+		region := ""
+		if m.Kind == "set" || m.Kind == "set2" || m.Kind == "trunc" || m.Kind == "field" {
+			region = seed.region(m.Pos)
+			if m.Kind == "set2" && seed.region(m.Pos2) == "section-cid" {
+				region = "section-cid"
+			}
+		} else if m.Kind == "hdr" {
+			region = "v1-header"
+		} else if m.Kind == "sec" {
+			region = "section-cid"
+		}
+		claim := uint64(1 << 63)
 		for _, e := range entries {
-			if e.index != seed.isIdx || (e.v1 && isV2) {
+			if e.index != seed.isIdx || (e.v1 && isV2) || (e.v2 && !isV2) {
 				continue
 			}
 			if cs.Entry != "" && e.name != cs.Entry {
 				continue
 			}
-			bound := mh + ms + 1024*uint64(len(in)) + (1 << 20)
-			if e.buf == "" || e.index {
-				bound = 1024*uint64(len(in)) + (1 << 20)
+			// allocation bounds. Per operation (one API call, or one object used up to its first
+			// error): at most ONE buffer that the input does not back can be allocated, because the
+			// read into it fails and ends the operation; so max(header max, section max), and only the
+			// section max when the mutant left the header alone. For the whole entry point (several
+			// calls): the historical sum bound.
+			prop := c09Prop(len(in)) + (1 << 20)
+			emh, ems := mh, ms
+			if e.buf == "root" {
+				emh, ems = rootLim, rootLim
+			} else if e.buf == "default" {
+				emh, ems = c09Limits("default")
 			}
-			if e.buf == "root" && cs.Limit != "small" {
-				bound = uint64(32<<20)*2 + 1024*uint64(len(in)) + (1 << 20)
+			opBound := emh
+			if ems > opBound {
+				opBound = ems
+			}
+			if m.Kind == "field" && m.Field == "section0.Len" && judged {
+				opBound = ems
+			}
+			opBound += prop
+			bound := emh + ems + prop
+			if e.buf == "root" {
+				bound = 2*rootLim + prop
+			}
+			if e.buf == "" || e.index {
+				bound, opBound = prop, prop
 			}
 			// announce before running: a fatal error is attributed to this (mutant, entry)
 			if prog != nil {
@@ -710,7 +1151,7 @@ func C09ChildMain(arg, progressPath string) int {
 				prog.Truncate(0)
 				prog.WriteAt(mb, 0)
 			}
-			env := &c09Env{dir: dir}
+			env := &c09Env{dir: dir, sample: sample}
 			before := allocBytes(sample)
 			var perr any
 			var stack string
@@ -728,7 +1169,7 @@ func C09ChildMain(arg, progressPath string) int {
 			}()
 			select {
 			case <-done:
-			case <-time.After(20 * time.Second):
+			case <-time.After(30 * time.Second):
 				fmt.Printf("{\"hang\":true}\n")
 				os.Exit(3)
 			}
@@ -757,24 +1198,124 @@ func C09ChildMain(arg, progressPath string) int {
 			if perr != nil {
 				add("c09:panic:"+e.name+":"+c09PanicFrame(stack), fmt.Sprintf("%s panics: %v\n%s", e.name, perr, clipS(stack, 1500)))
 			}
-			if delta > bound {
-				region := seed.region(m.Pos)
-				if m.Kind == "set2" && seed.region(m.Pos2) == "section-cid" {
-					region = "section-cid"
+			nOps := uint64(len(env.errs))
+			judge := func(d, bnd uint64, what string, parses uint64) {
+				if d <= bnd {
+					return
 				}
-				if region == "section-cid" && delta <= bound+(33<<20) {
-					// the multihash length varint inside a section's CID: go-cid's CidFromReader
-					// pre-allocates the claimed digest length (capped at 32 MiB) before reading
-					region = "cid-digest-prealloc"
+				reg := region
+				if reg == "" {
+					reg = "input"
 				}
-				add("c09:alloc:"+region+":"+e.name, fmt.Sprintf("%s allocated %d bytes on a %d-byte input (bound %d = header max + section max + 1 KiB/byte + 1 MiB)", e.name, delta, len(in), bound))
+				// Findings that live in a dependency or in one shared function get ONE signature each, not one
+				// per entry point (every signature costs five confirming child runs); the replay names the entry.
+				sig := ""
+				switch {
+				case e.name == "root.ReadCid":
+					// util.ReadCid parses with go-multihash's reader, which allocates the claimed digest
+					// length (up to 2^31-1) before reading it
+					sig = "c09:alloc:readcid-digest-prealloc:root.ReadCid"
+				case e.resume && c09FirstLen(in) <= 32<<20 && d <= bnd+c09FirstLen(in):
+					// the resume path reads the first header of the file (pragma / CARv1 header) with
+					// the DEFAULT header limit (store.ResumableVersion calls ReadVersion without options)
+					sig = "c09:alloc:resume-first-header-default-limit:" + e.name
+				case m.Claim > 0 && m.Claim <= 32<<20 && d <= bnd+parses*(2*m.Claim+(1<<20)):
+					// a CBOR string/bytes head inside a header of legal size: the CBOR decoder (refmt)
+					// allocates the claimed length (capped at 32 MiB) before reading
+					sig = "c09:alloc:cbor-string-prealloc:v2"
+					if e.buf == "root" {
+						sig = "c09:alloc:cbor-string-prealloc:root"
+					}
+				case region == "section-cid":
+					// a multihash length varint inside a CID: go-cid's CidFromReader pre-allocates the
+					// claimed digest length (capped at 32 MiB) before reading. Only as much as some CID
+					// position of THIS input claims is attributed to that, once per parse.
+					if claim == 1<<63 {
+						claim = c09MaxCidClaim(in)
+					}
+					if d <= bnd+parses*(claim+(1<<20)) {
+						sig = "c09:alloc:cid-digest-prealloc:other"
+						if e.name == "NewReadOnly" || e.name == "OpenReadable" {
+							sig = "c09:alloc:cid-digest-prealloc:" + e.name // the two signatures on record
+						}
+					}
+				}
+				if sig == "" {
+					sig = "c09:alloc:" + reg + ":" + e.name
+				} else if cs.Mut == nil && d <= bnd+(256<<10) {
+					// Hysteresis for the findings on record: an instance that exceeds the bound by less than
+					// the measurement noise is not made the representative of its (shared) signature - the
+					// re-executions that confirm a representative judge strictly (d > bound) and must not flip.
+					return
+				}
+				add(sig, fmt.Sprintf("%s (%s) allocated %d bytes on a %d-byte input (bound %d; header max %d, section max %d, + proportional part + 1 MiB)", e.name, what, d, len(in), bnd, emh, ems))
+			}
+			main := delta - env.opSum
+			if env.opSum > delta {
+				main = 0
+			}
+			judge(main, opBound, "outside its per-call operations", 1)
+			judge(env.opMax, opBound, "operation "+env.opMaxName, 1)
+			if totalCheck {
+				judge(delta, bound, "in total", nOps+1)
 			}
 			stepBound := int64(64 * (len(in) + 64))
 			if env.steps > stepBound {
 				add("c09:steps:"+e.name, fmt.Sprintf("%s issued %d reads/seeks on a %d-byte input (budget %d)", e.name, env.steps, len(in), stepBound))
 			}
-			if rerr != nil && strings.Contains(rerr.Error(), "c09: iteration does not terminate") {
+			if env.iters > stepBound {
+				add("c09:steps:"+e.name, fmt.Sprintf("%s ran %d loop iterations on a %d-byte input (budget %d)", e.name, env.iters, len(in), stepBound))
+			}
+			if rerr != nil && strings.Contains(rerr.Error(), errC09NoTerm.Error()) {
 				add("c09:nonterminating:"+e.name, fmt.Sprintf("%s keeps returning blocks", e.name))
+			}
+			// the unmutated seed is a valid archive / index: it is accepted
+			if m.Kind == "none" && rerr != nil && !(e.okErr != nil && e.okErr(rerr, seed)) && cs.Opt == "" && c09SeedFits(seed, e, emh, ems) {
+				add("c09:seed-rejected:"+e.name, fmt.Sprintf("%s fails on the valid seed %s: %v", e.name, seed.name, rerr))
+			}
+			// a planted over-limit length is rejected with the too-large error; one at the limit is not
+			if (wantHdr || wantSect || hdrWithin) && (!isV2 || e.inner) && m.FV < 1<<63 && (!wantSect || uint64(seed.hdrLen-seed.hdrVar) <= emh) {
+				hs, ss := c09HdrTooLarge, c09SectTooLarge
+				if e.buf == "root" {
+					hs, ss = c09RootTooLarge, c09RootTooLarge
+				}
+				var got []error
+				switch {
+				case (wantHdr || hdrWithin) && e.hdr == "ret":
+					got = []error{rerr}
+				case (wantHdr || hdrWithin) && e.hdr == "store":
+					if oe, ok := env.errs["open"]; ok && oe != nil {
+						got = []error{oe}
+					} else if ok {
+						got = []error{env.errs["Keys"], env.errs["Roots"]}
+					}
+				case wantSect && e.sect == "ret":
+					got = []error{rerr}
+				case wantSect && e.sect == "get":
+					if ge, ok := env.errs["Get:a"]; ok {
+						got = []error{ge}
+					}
+				}
+				lim := emh
+				if wantSect {
+					lim = ems
+				}
+				for _, g := range got {
+					res.Expect++
+					switch {
+					case wantHdr && m.FV > emh && !errHas(g, hs):
+						add("c09:too-large-not-reported:header:"+e.name, fmt.Sprintf("%s: header length prefix %d with MaxAllowedHeaderSize %d returned %v, want %q", e.name, m.FV, lim, g, hs))
+					case wantSect && m.FV > ems && !errHas(g, ss):
+						add("c09:too-large-not-reported:section:"+e.name, fmt.Sprintf("%s: section length prefix %d with MaxAllowedSectionSize %d returned %v, want %q", e.name, m.FV, lim, g, ss))
+					case hdrWithin && m.FV <= emh && errHas(g, hs) && hs != ss:
+						add("c09:within-limit-rejected:header:"+e.name, fmt.Sprintf("%s: header length prefix %d with MaxAllowedHeaderSize %d is rejected as too large: %v", e.name, m.FV, lim, g))
+					}
+				}
+			}
+			// the root module's single limit, at the real sizes of the seed (process-global: only here, in the child)
+			if m.Kind == "none" && e.buf == "root" && cs.Opt == "" && cs.Set == "" {
+				c09RootExact(seed, e, o, env, add)
+				v1util.MaxAllowedSectionSize = uint(rootLim)
 			}
 		}
 	}
@@ -786,6 +1327,52 @@ func C09ChildMain(arg, progressPath string) int {
 	b, _ := json.Marshal(res)
 	fmt.Println(string(b))
 	return 0
+}
+
+// c09SeedFits: the valid seed is within the limits in force and is what the entry point reads.
+func c09SeedFits(seed *c09Seed, e c09Entry, emh, ems uint64) bool {
+	if seed.isIdx {
+		return seed.iidx == (e.name == "InsertionIndex.Unmarshal")
+	}
+	if uint64(seed.hdrLen-seed.hdrVar) > emh {
+		return false
+	}
+	for _, s := range seed.pl.Sections {
+		if uint64(len(s.Cid)+len(s.Data)) > ems {
+			return false
+		}
+	}
+	return true
+}
+
+// c09FirstLen is the first length prefix of the input (2^63 if there is none).
+func c09FirstLen(in []byte) uint64 {
+	v, n := binary.Uvarint(in)
+	if n <= 0 {
+		return 1 << 63
+	}
+	return v
+}
+
+// c09RootExact: with util.MaxAllowedSectionSize exactly the largest header/section of the valid
+// seed the root-module readers accept it; with one less they refuse with the too-large error.
+func c09RootExact(seed *c09Seed, e c09Entry, o drv.Opts, env *c09Env, add func(sig, msg string)) {
+	big := uint64(seed.hdrLen - seed.hdrVar)
+	if e.sect != "" {
+		for _, s := range seed.pl.Sections {
+			if l := uint64(len(s.Cid) + len(s.Data)); l > big {
+				big = l
+			}
+		}
+	}
+	v1util.MaxAllowedSectionSize = uint(big)
+	if err := e.run(seed.bytes, o, &c09Env{dir: env.dir}); err != nil {
+		add("c09:limit-exact-rejected:"+e.name, fmt.Sprintf("%s with util.MaxAllowedSectionSize %d (the largest header/section of seed %s) fails: %v", e.name, big, seed.name, err))
+	}
+	v1util.MaxAllowedSectionSize = uint(big - 1)
+	if err := e.run(seed.bytes, o, &c09Env{dir: env.dir}); !errHas(err, c09RootTooLarge) {
+		add("c09:limit-not-enforced:"+e.name, fmt.Sprintf("%s with util.MaxAllowedSectionSize %d on seed %s (largest header/section %d) returned %v, want the too-large error", e.name, big-1, seed.name, big, err))
+	}
 }
 
 func c09PanicFrame(st string) string {
@@ -847,12 +1434,14 @@ func runC09(c any, x *kit.Ctx) {
 		runC09Limits(cs, x)
 		return
 	}
+	t0 := time.Now()
 	total := &c09Result{}
 	merge := func(r *c09Result) {
 		total.Runs += r.Runs
 		total.Mutants += r.Mutants
 		total.Accepted += r.Accepted
 		total.Rejected += r.Rejected
+		total.Expect += r.Expect
 		if r.MaxAlloc > total.MaxAlloc {
 			total.MaxAlloc = r.MaxAlloc
 		}
@@ -882,7 +1471,10 @@ func runC09(c any, x *kit.Ctx) {
 		}
 		// run the announced mutant alone, every entry point in its own child, so that the
 		// verdict does not depend on what earlier mutants left in the process
-		for _, e := range c09Entries() {
+		for _, e := range c09EntriesFor(cs.Set) {
+			if e.index != c09FindSeed(cs.Seed).isIdx {
+				continue
+			}
 			iso := cs
 			iso.From = 0
 			m := mut
@@ -913,9 +1505,10 @@ func runC09(c any, x *kit.Ctx) {
 	x.Count("mutants", res.Mutants)
 	x.Count("accepted_runs", res.Accepted)
 	x.Count("rejected_runs", res.Rejected)
-	x.Note(fmt.Sprintf("%s/%s/%s/zero=%v", cs.Seed, cs.Class, cs.Limit, cs.Zero), map[string]any{"mutants": res.Mutants, "runs": res.Runs, "accepted": res.Accepted, "rejected": res.Rejected, "max_alloc_bytes": res.MaxAlloc, "max_reader_steps": res.MaxSteps})
-	x.Outcome(fmt.Sprintf("%s:%s", cs.Class, cs.Limit))
-	x.Nontrivial(fmt.Sprintf("%s|%s|%s|%v", cs.Seed, cs.Class, cs.Limit, cs.Zero))
+	x.Count("too_large_expectations_checked", res.Expect)
+	x.Note(fmt.Sprintf("%s/%s/%s/zero=%v/set=%s/opt=%s/%d", cs.Seed, cs.Class, cs.Limit, cs.Zero, cs.Set, cs.Opt, cs.Shard), map[string]any{"mutants": res.Mutants, "runs": res.Runs, "accepted": res.Accepted, "rejected": res.Rejected, "max_alloc_bytes": res.MaxAlloc, "max_reader_steps": res.MaxSteps, "wall_ms_informative": time.Since(t0).Milliseconds()})
+	x.Outcome(fmt.Sprintf("%s:%s:%s:%s", cs.Class, cs.Limit, cs.Set, cs.Opt))
+	x.Nontrivial(fmt.Sprintf("%s|%s|%s|%v|%s|%s|%d", cs.Seed, cs.Class, cs.Limit, cs.Zero, cs.Set, cs.Opt, cs.Shard))
 	seen := map[string]bool{}
 	for _, v := range res.Violations {
 		if seen[v.Sig] {
@@ -927,8 +1520,29 @@ func runC09(c any, x *kit.Ctx) {
 		m := v.Mut
 		rc.Mut = &m
 		rc.Entry = v.Entry
+		if os.Getenv("C09_DEBUG") != "" {
+			jb, _ := json.Marshal(rc)
+			fmt.Fprintf(os.Stderr, "C09_DEBUG %s %s\n", v.Sig, jb)
+		}
 		x.FailCase(rc, v.Sig, "seed %s mutant %+v: %s", cs.Seed, v.Mut, v.Msg)
 	}
+}
+
+// c09DeathRegion names the region of a mutant whose parsing exhausted memory.
+func c09DeathRegion(seed string, m C09Mut, entry string) string {
+	reg := "input"
+	switch m.Kind {
+	case "hdr":
+		reg = "v1-header"
+	case "sec":
+		reg = "section-cid"
+	case "set", "set2", "trunc", "field":
+		reg = c09FindSeed(seed).region(m.Pos)
+	}
+	if entry == "root.ReadCid" {
+		reg = "readcid-digest-prealloc"
+	}
+	return reg
 }
 
 func firstLines(s string, n int) string {
@@ -947,92 +1561,211 @@ func lastLine(b []byte) []byte {
 	return b
 }
 
-// runC09Limits: an over-limit header/section is rejected with the too-large error and an
-// exactly-at-limit one accepted, at every entry point that buffers one.
+// runC09Limits: on the valid seed, an over-limit header/section is rejected with the too-large
+// error and an exactly-at-limit one accepted, at every entry point that buffers one (the sizes are
+// the seed's own: 1-, 2- and 3-byte length prefixes, a header over 4 KiB).
 func runC09Limits(cs C09Case, x *kit.Ctx) {
 	seed := c09FindSeed(cs.Seed)
-	var pl *refcar.Payload
 	in := seed.bytes
-	window := in
-	if bytes.HasPrefix(in, refcar.Pragma) {
-		h := refcar.ParseV2Header(in[11:51])
-		window = in[h.DataOffset : h.DataOffset+h.DataSize]
-	}
-	pl, err := refcar.DecodePayload(window, false, true)
-	if err != nil {
-		panic(err)
-	}
-	hdrBody := pl.HeaderLen - uint64(refcar.UvarintSize(pl.HeaderLen-1))
+	pl := seed.pl
+	hdrBody := uint64(seed.hdrLen - seed.hdrVar)
 	// the pragma of a CARv2 is itself read as a header (10 bytes); the binding header is the larger
 	var maxSect uint64
+	bigName := ""
 	for _, s := range pl.Sections {
 		if l := uint64(len(s.Cid) + len(s.Data)); l > maxSect {
 			maxSect = l
 		}
 	}
-	env := &c09Env{dir: x.Dir}
-	isV2 := bytes.HasPrefix(in, refcar.Pragma)
-	innerHeader := map[string]bool{"Reader": true, "Inspect(true)": true, "Inspect(false)": true, "BlockReader.Next": true, "BlockReader.Next/stream": true, "BlockReader.SkipNext": true,
-		"BlockReader.SkipNext/stream": true, "BlockReader.alternate": true, "BlockReader.alternate/stream": true, "GenerateIndex": true, "GenerateIndex/stream": true, "LoadIndex(insertion)": true, "NewReadOnly": true, "ReplaceRootsInFile": true}
-	for _, e := range c09Entries() {
-		if e.index || e.buf == "" || e.buf == "root" {
-			continue
-		}
-		if isV2 && (e.v1 || !innerHeader[e.name]) {
-			continue // on a CARv2 only some entry points ever buffer the inner header
-		}
-		x.Eval(1)
-		// exactly at the limit: accepted
-		o := drv.Opts{MaxHeader: hdrBody, MaxSect: maxSect}
-		if maxSect == 0 {
-			o.MaxSect = 1
-		}
-		errAt := e.run(in, o, env)
-		if errAt != nil && (isTooLarge(errAt)) {
-			x.Fail("c09:limit-exact-rejected:"+e.name, "%s rejects a header of %d / section of %d bytes with limits exactly %d / %d: %v", e.name, hdrBody, maxSect, o.MaxHeader, o.MaxSect, errAt)
-		}
-		// header one over the limit: rejected with the too-large error
-		o2 := drv.Opts{MaxHeader: hdrBody - 1, MaxSect: o.MaxSect}
-		err2 := e.run(in, o2, env)
-		if err2 == nil || !strings.Contains(err2.Error(), "invalid header data, length of read beyond allowable maximum") {
-			x.Fail("c09:limit-header-not-enforced:"+e.name, "%s with MaxAllowedHeaderSize %d on a %d-byte header returned %v, want the header-too-large error", e.name, hdrBody-1, hdrBody, err2)
-		}
-		if e.buf == "both" && maxSect > 1 {
-			o3 := drv.Opts{MaxHeader: hdrBody, MaxSect: maxSect - 1}
-			err3 := e.run(in, o3, env)
-			if err3 == nil || !strings.Contains(err3.Error(), "invalid section data, length of read beyond allowable maximum") {
-				x.Fail("c09:limit-section-not-enforced:"+e.name, "%s with MaxAllowedSectionSize %d on a %d-byte section returned %v, want the section-too-large error", e.name, maxSect-1, maxSect, err3)
+	for _, q := range []string{"a", "L128", "L16384", "L5000", "s", "b", "i"} {
+		for _, s := range pl.Sections {
+			if bytes.Equal(s.Cid, kit.B(q).Raw) && uint64(len(s.Cid)+len(s.Data)) == maxSect && bigName == "" {
+				bigName = q
 			}
 		}
-		x.Nontrivial("limits|" + cs.Seed + "|" + e.name)
+	}
+	isV2 := bytes.HasPrefix(in, refcar.Pragma)
+	for _, set := range []string{"", "ext"} {
+		for _, e := range c09EntriesFor(set) {
+			if e.index || e.buf == "" || e.buf == "root" || e.buf == "default" {
+				continue
+			}
+			if !isV2 && e.v2 {
+				continue
+			}
+			if isV2 && (e.v1 || !e.inner) {
+				continue // on a CARv2 only some entry points ever buffer the inner header
+			}
+			env := &c09Env{dir: x.Dir}
+			x.Eval(1)
+			// exactly at the limit: accepted
+			o := drv.Opts{MaxHeader: hdrBody, MaxSect: maxSect}
+			if maxSect == 0 {
+				o.MaxSect = 1
+			}
+			errAt := e.run(in, o, env)
+			if errAt != nil && (isTooLarge(errAt)) {
+				x.Fail("c09:limit-exact-rejected:"+e.name, "%s rejects a header of %d / section of %d bytes with limits exactly %d / %d: %v", e.name, hdrBody, maxSect, o.MaxHeader, o.MaxSect, errAt)
+			} else if errAt != nil && !(e.okErr != nil && e.okErr(errAt, seed)) {
+				x.Fail("c09:limit-exact-error:"+e.name, "%s fails on the valid seed %s with limits exactly at its header (%d) and largest section (%d): %v", e.name, seed.name, hdrBody, maxSect, errAt)
+			}
+			// header one over the limit: rejected with the too-large error
+			o2 := drv.Opts{MaxHeader: hdrBody - 1, MaxSect: o.MaxSect}
+			env2 := &c09Env{dir: x.Dir}
+			err2 := e.run(in, o2, env2)
+			if err2 == nil || !strings.Contains(err2.Error(), c09HdrTooLarge) {
+				x.Fail("c09:limit-header-not-enforced:"+e.name, "%s with MaxAllowedHeaderSize %d on a %d-byte header returned %v, want the header-too-large error", e.name, hdrBody-1, hdrBody, err2)
+			}
+			if oe, opened := env2.errs["open"]; e.hdr == "store" && opened && oe == nil {
+				// opened without touching the inner header: the listing and the roots both read it
+				for _, k := range []string{"Keys", "Roots"} {
+					if !errHas(env2.errs[k], c09HdrTooLarge) {
+						x.Fail("c09:limit-header-not-enforced:"+e.name+":"+k, "%s/%s with MaxAllowedHeaderSize %d on a %d-byte header returned %v, want the header-too-large error", e.name, k, hdrBody-1, hdrBody, env2.errs[k])
+					}
+				}
+			}
+			if e.buf == "both" && maxSect > 1 {
+				o3 := drv.Opts{MaxHeader: hdrBody, MaxSect: maxSect - 1}
+				err3 := e.run(in, o3, &c09Env{dir: x.Dir})
+				if err3 == nil || !strings.Contains(err3.Error(), c09SectTooLarge) {
+					x.Fail("c09:limit-section-not-enforced:"+e.name, "%s with MaxAllowedSectionSize %d on a %d-byte section returned %v, want the section-too-large error", e.name, maxSect-1, maxSect, err3)
+				}
+			}
+			// the query path of the block store (FindCid -> ReadNode): Get of the largest block
+			if e.sect == "get" && bigName != "" {
+				big := kit.B(bigName)
+				for _, d := range []uint64{0, 1} {
+					o4 := drv.Opts{MaxHeader: hdrBody, MaxSect: maxSect - d}
+					env4 := &c09Env{dir: x.Dir}
+					var data []byte
+					var gerr error
+					env4.hook = func(ra drv.RA) { data, gerr = ra.Get(big.Cid) }
+					oerr := e.run(in, o4, env4)
+					switch {
+					case !env4.hooked:
+						x.Fail("c09:limit-store-open:"+e.name, "%s with limits %d / %d on the valid seed %s did not open: %v", e.name, o4.MaxHeader, o4.MaxSect, seed.name, oerr)
+					case d == 0 && (gerr != nil || !bytes.Equal(data, big.Data)):
+						x.Fail("c09:limit-exact-rejected:"+e.name+":Get", "%s: Get of a %d-byte section with MaxAllowedSectionSize %d returned %d bytes, error %v", e.name, maxSect, maxSect, len(data), gerr)
+					case d == 1 && !errHas(gerr, c09SectTooLarge):
+						x.Fail("c09:limit-section-not-enforced:"+e.name+":Get", "%s: Get of a %d-byte section with MaxAllowedSectionSize %d returned %v, want the section-too-large error", e.name, maxSect, maxSect-1, gerr)
+					}
+				}
+			}
+			x.Nontrivial("limits|" + cs.Seed + "|" + e.name)
+		}
 	}
 	x.State("limits|" + cs.Seed)
 	x.Outcome("limits")
 }
 
 func isTooLarge(err error) bool {
-	return err != nil && strings.Contains(err.Error(), "length of read beyond allowable maximum")
+	return err != nil && (strings.Contains(err.Error(), "length of read beyond allowable maximum") || strings.Contains(err.Error(), c09RootTooLarge))
 }
 
-func genC09(tier string, emit func(any)) {
+func genC09(tier string, emit0 func(any)) {
+	thorough := tier == "thorough"
+	emit := emit0
+	if f := os.Getenv("C09_FILTER"); f != "" {
+		// debugging aid: only the cases whose JSON contains every comma-separated fragment
+		emit = func(c any) {
+			b, _ := json.Marshal(c)
+			for _, frag := range strings.Split(f, ",") {
+				if !strings.Contains(string(b), frag) {
+					return
+				}
+			}
+			emit0(c)
+		}
+	}
+	// the 100000-deep nestings (100-300 KB of header) only where the header limit lets them reach the decoder
+	cborClass := func(limit string) string {
+		if limit == "default" {
+			return "cbordeep"
+		}
+		return "cbor"
+	}
+	optSeeds := map[string]bool{"v1-ai": true, "v2-as": true, "v2noidx-a": true}
 	for _, s := range c09Seeds() {
-		for _, limit := range []string{"small", "default"} {
-			for _, zero := range []bool{false, true} {
-				if s.isIdx && (zero || limit == "default") {
-					continue
+		switch {
+		case s.isIdx:
+			for _, set := range []string{"", "ext"} {
+				emit(C09Case{Seed: s.name, Class: "byte", Limit: "small", Set: set})
+				emit(C09Case{Seed: s.name, Class: "fields", Limit: "small", Set: set})
+				if thorough {
+					emit(C09Case{Seed: s.name, Class: "pair", Limit: "small", Set: set})
 				}
-				emit(C09Case{Seed: s.name, Class: "byte", Limit: limit, Zero: zero})
-				if limit == "small" {
-					emit(C09Case{Seed: s.name, Class: "fields", Limit: limit, Zero: zero})
+			}
+			continue
+		case s.large:
+			// structural positions and fields only (reduced matrix: no every-position classes)
+			emit(C09Case{Seed: s.name, Class: "fields", Limit: "small"})
+			for _, set := range []string{"", "ext"} {
+				for _, limit := range []string{"small", "default", "swap"} {
+					for _, zero := range []bool{false, true} {
+						if !thorough && (zero || limit == "swap") {
+							continue
+						}
+						emit(C09Case{Seed: s.name, Class: "struct", Limit: limit, Zero: zero, Set: set})
+						emit(C09Case{Seed: s.name, Class: "lens", Limit: limit, Zero: zero, Set: set})
+						if !zero && (thorough || limit == "small") {
+							emit(C09Case{Seed: s.name, Class: cborClass(limit), Limit: limit, Zero: zero, Set: set})
+						}
+					}
 				}
-				if tier == "thorough" && limit == "small" && !zero {
-					emit(C09Case{Seed: s.name, Class: "pair", Limit: limit, Zero: zero})
+			}
+		default:
+			for _, limit := range []string{"small", "default", "swap"} {
+				for _, zero := range []bool{false, true} {
+					// core entry points
+					if limit != "swap" || !zero || thorough {
+						emit(C09Case{Seed: s.name, Class: "byte", Limit: limit, Zero: zero})
+					}
+					if limit == "small" {
+						emit(C09Case{Seed: s.name, Class: "fields", Limit: limit, Zero: zero})
+					} else {
+						emit(C09Case{Seed: s.name, Class: "lens", Limit: limit, Zero: zero})
+					}
+					if (!zero && limit != "swap") || thorough {
+						emit(C09Case{Seed: s.name, Class: cborClass(limit), Limit: limit, Zero: zero})
+					}
+					if thorough && limit == "small" && !zero {
+						// the long enumerations are split so that all workers share them
+						for sh := 0; sh < 4; sh++ {
+							emit(C09Case{Seed: s.name, Class: "pair", Limit: limit, Zero: zero, Shard: sh, Shards: 4})
+						}
+						for sh := 0; sh < 8; sh++ {
+							emit(C09Case{Seed: s.name, Class: "pair", Limit: limit, Zero: zero, Set: "ext", Shard: sh, Shards: 8})
+						}
+					}
+					// extended entry points (reduced matrix in the quick tier)
+					if (limit == "small" && !zero) || (thorough && (limit != "swap" || !zero)) {
+						emit(C09Case{Seed: s.name, Class: "byte", Limit: limit, Zero: zero, Set: "ext"})
+					}
+					if (!zero && limit != "default") || thorough {
+						if limit == "small" && thorough {
+							emit(C09Case{Seed: s.name, Class: "fields", Limit: limit, Zero: zero, Set: "ext"})
+						} else {
+							emit(C09Case{Seed: s.name, Class: "lens", Limit: limit, Zero: zero, Set: "ext"})
+						}
+					}
+					if (limit == "small" && !zero) || (thorough && !zero) {
+						emit(C09Case{Seed: s.name, Class: cborClass(limit), Limit: limit, Zero: zero, Set: "ext"})
+					}
+				}
+			}
+			// option variants (reduced matrix: one limit setting; three seeds in the quick tier)
+			for _, opt := range []string{"sw", "tm", "so"} {
+				if thorough || optSeeds[s.name] {
+					emit(C09Case{Seed: s.name, Class: "byte", Limit: "small", Opt: opt})
+					emit(C09Case{Seed: s.name, Class: "lens", Limit: "small", Opt: opt})
+				}
+				if thorough {
+					emit(C09Case{Seed: s.name, Class: "byte", Limit: "small", Opt: opt, Set: "ext"})
+					emit(C09Case{Seed: s.name, Class: "lens", Limit: "swap", Opt: opt, Set: "ext"})
 				}
 			}
 		}
-		if !s.isIdx {
-			emit(C09Case{Seed: s.name, Class: "limits"})
-		}
+		emit(C09Case{Seed: s.name, Class: "limits"})
 	}
 }
 
@@ -1042,14 +1775,18 @@ func init() {
 		Gen:    genC09,
 		Run:    runC09,
 		Decode: kit.DecodeAs[C09Case],
-		Rule: "deviation-bounded mutation of valid seeds (CARv1/CARv2/padded/index-less archives and detached indexes of both codecs): 0 deviations; EVERY position x byte alphabet {00,01,7f,80,ff,+1,-1} and EVERY truncation (1 deviation); thorough: all pairs inside the structural regions (2 deviations); plus the product of boundary values of every numeric field (CARv2 header offsets/sizes; header and section length varints incl. over-long encodings; index count/code/width/length fields) " +
-			"x {small limits 4 KiB, default limits} x ZeroLengthSectionAsEOF x every parsing entry point (26), each run in a child process with an address-space limit; oracle: no panic, no fatal error (child death is attributed to the announced input), reads/seeks within 64*(len+64), allocation <= header max + section max + 1 KiB/byte + 1 MiB, limits enforced exactly; states = mutants, executions = (mutant, entry point) runs",
+		Rule: "deviation-bounded mutation of valid seeds (CARv1/CARv2/padded/index-less archives with 1-byte length prefixes; a 128-byte, a 5000-byte and a 16384-byte section (2/3-byte prefixes, over the small limits and the 4 KiB bufio size); a 100-root header over 4 KiB; detached indexes of both codecs, synthetic and real; the InsertionIndex form): 0 deviations (the seed must be accepted); EVERY position x byte alphabet {00,01,7f,80,ff,+1,-1} and EVERY truncation (1 deviation; for the three large seeds only the structural positions + every 509th); thorough: all pairs inside the structural regions (2 deviations); the product of boundary values of every numeric field (CARv2 header offsets/sizes; header and section-0 length varints at 0,1,2,127/128,1023-1025,2047-2049,4095-4097,16383/4,8 MiB+-1,32 MiB+-1,2^31,2^32,2^63-1,2^63,2^64-1, each also non-minimal, 10/11-byte and unterminated, and for CARv2 both with and without DataSize/IndexOffset following the new width; index count/code/width/length fields); class cbor: every CBOR head of the header re-encoded (all argument widths, count+-1, 2^22, 2^32-1, 2^63-1, 2^63, 2^64-1, indefinite, every other major type), nesting 1/100/4000/100000 deep, header cut at every item, root CID and section-0 CID with non-minimal / huge / zero varints, all with the enclosing length prefixes and the CARv2 header re-computed " +
+			"x limits {header 4096/section 2048, 2048/4096, defaults} x ZeroLengthSectionAsEOF x option variants {StoreIdentityCIDs+UseWholeCIDs(+root ErrorOnEmptyRoots), TrustedCAR+MaxIndexCidSize 36, index codec sorted} (reduced matrix: small limits only) x every parsing entry point: core set (26) and extended set (source capability kinds ReaderAt-only / Read+Seek-only / bufio ByteReader / go-car's offsetReadSeeker / *os.File / pipe / mmap; resume of blockstore.OpenReadWrite and storage.OpenReadableWritable in both formats; caller-supplied mutant index; InsertionIndex.Unmarshal; index ForEach and lookups with digests matching mutated widths/codes; util.ReadCid at every offset), objects used on after their first error and closed; each run in a child process with an address-space limit; " +
+			"oracle: no panic, no fatal error (child death is attributed to the announced input), reads/seeks within 64*(len+64), allocation per API call <= max(header max, section max) (section max only when only a section length was planted) + proportional part + 1 MiB and per entry point <= header max + section max + ..., a planted length over the limit is answered with the matching too-large error (header vs section string) and one within it is not, the valid seed is accepted at limits exactly its header/largest section and refused with the too-large error one below (incl. blockstore Get and the root module's global); states = mutants, executions = (mutant, entry point) runs",
 		Bound: func(tier string) map[string]any {
+			dev := 1
 			if tier == "thorough" {
-				return map[string]any{"deviations": 2, "entry_points": len(c09Entries()), "seeds": len(c09Seeds())}
+				dev = 2
 			}
-			return map[string]any{"deviations": 1, "entry_points": len(c09Entries()), "seeds": len(c09Seeds())}
+			return map[string]any{"deviations": dev, "entry_points_core": len(c09Entries()), "entry_points_extended": len(c09ExtEntries()), "seeds": len(c09Seeds()), "limit_settings": 3, "option_variants": 4}
 		},
-		Assumptions: []string{"coverage statement over the deviation-bounded neighbourhood of the seeds and the field-boundary products, not over all byte strings", "allocation is measured with runtime/metrics /gc/heap/allocs:bytes around each call in a 2-thread child", "a 20 s watchdog per call only guards the harness; a hang is reported as such and re-executed 5 times before it is believed"},
+		Assumptions: []string{"coverage statement over the deviation-bounded neighbourhood of the seeds and the field-boundary / CBOR-head products, not over all byte strings", "allocation is measured with runtime/metrics /gc/heap/allocs:bytes around each call in a 2-thread child", "a 30 s watchdog per call only guards the harness; a hang is reported as such and re-executed 5 times before it is believed",
+			"reduced matrices (stated, not sampled): extended entry points x {small limits, ZeroEOF off} in the quick tier; option variants x small limits only (3 seeds in the quick tier); large seeds: structural positions only", "storage.Get/GetStream read through a section reader bounded by the file and are not required to report the section-too-large error", "length prefixes >= 2^63 are answered by go-varint with its own overflow error; the too-large error is demanded below 2^63 only",
+			"file-, pipe- and mmap-backed entry points are not step-counted (watchdog only)"},
 	})
 }
